@@ -23,8 +23,8 @@ import vlib
 from vlib import zlit, bytes_lit, coq_list
 
 LEVEL = 'proof'
-IMPORTS = ['SV.C10.Listener', 'SV.C10.Proc', 'SV.C09.Gen_EvTypes', 'SV.C09.EvTypes', 'SV.C09.Pool']
-CASE_TYPE = 'Z * Z * (list pcfg * Z * Z) * list wop * list (wobs * list weff) * list tobs'
+IMPORTS = ['SV.C10.Listener', 'SV.C10.Proc', 'SV.C09.Gen_EvTypes', 'SV.C09.EvTypes', 'SV.C09.Pool', 'SV.C09.Groups']
+CASE_TYPE = 'Z * Z * (list pcfg * Z * Z) * list gop * list (wobs * list weff) * list tobs'
 BIG = 1000000
 B = ['room', BIG]
 
@@ -35,7 +35,7 @@ SUBS = [
     ['ProcessLogEvent', 'ProcessCommunicationStdoutEvent'], ['RemoteCommunicationEvent'], [],
     ['ProcessStateStartingOrBackoffEvent', 'ProcessStateStartingEvent', 'Event', 'TickEvent'],
 ]
-EMIT = ['Tick5Event', 'Tick60Event', 'ProcessStateRunningEvent', 'ProcessStateExitedEvent',
+EMIT = ['Tick5Event', 'Tick60Event', 'Tick3600Event', 'ProcessGroupRemovedEvent', 'ProcessStateRunningEvent', 'ProcessStateExitedEvent',
         'ProcessLogStdoutEvent', 'RemoteCommunicationEvent', 'SupervisorRunningEvent',
         'ProcessCommunicationStdoutEvent', 'ProcessStateStartingEvent', 'ProcessGroupAddedEvent']
 
@@ -50,7 +50,23 @@ def wt(w):
     return '(WRoom %s)' % zlit(w[1]) if w[0] == 'room' else {'again': 'WAgain', 'epipe': 'WEpipe', 'err': 'WErr'}[w[0]]
 
 
-def op_term(op, new, pre_state):
+def cfg_term(c):
+    subs, bs, nl, ps = c[:4]
+    return '(%s, %s, %d%%nat, %s)' % (coq_list(['T_' + n for n in subs]), zlit(bs), nl, zlit(ps))
+
+
+def op_term(op, new, pre_state, effs=(), cfgs=()):
+    k = op[0]
+    if k in ('remove', 'add'):
+        if list(effs) == ['EInapplicable']:
+            return '(GRemove 999 0)'            # not applicable: no such group / name in use
+        if k == 'remove':
+            return '(GRemove %d %s)' % (op[1], zlit((list(new) + [0])[0]))
+        return '(GAdd %s %s)' % (cfg_term(cfgs[-1]), zlit((list(new) + [0])[0]))
+    return '(GOp %s)' % wop_term(op, new, pre_state)
+
+
+def wop_term(op, new, pre_state):
     k = op[0]
     new = list(new) + [0, 0]
     if k == 'emit':
@@ -94,17 +110,54 @@ class Monitor(object):
         self.sent_serial = {}
         self.pserial_seen = [dict() for _ in cfgs]
         self.check_serials = check_serials
+        self.member = [True for _ in cfgs]     # plain bookkeeping: is the pool one of the process groups?
+
+    def _grow(self):
+        while len(self.offered) < len(self.cfgs):
+            for l in (self.offered, self.acked, self.discarded):
+                l.append([])
+            self.pserial_seen.append({})
+            self.member.append(True)
 
     def step(self, op, pre, post, effs):
         ev = self.events
-        n = self.n
-        # ---- routing: offered once to exactly the pools subscribed to the class or a superclass
+        from c10_env import ProcessStates
+        stopped = (ProcessStates.STOPPED, ProcessStates.EXITED, ProcessStates.FATAL, ProcessStates.UNKNOWN)
+        # ---- process groups: a removal is refused exactly while a listener of the pool is not stopped;
+        #      a refused removal changes nothing, an accepted one ends the pool's membership
+        cls = None
+        if op[0] == 'remove' and effs and effs[0].startswith('ERaise'):
+            return 'remove_process_group raised an exception: %s' % effs[0]
+        if op[0] == 'remove' and effs != ['EInapplicable']:
+            pi = op[1]
+            expect_ok = all(l[0] in stopped for l in pre[pi][2])
+            if expect_ok != (effs[0] == 'ERegroup %d' % pi):
+                return 'removal of pool %d %s although its listeners are %s' % (
+                    pi, 'accepted' if not expect_ok else 'refused', 'all stopped' if expect_ok else 'not all stopped')
+            if expect_ok:
+                self.member[pi] = False
+                cls = ev.ProcessGroupRemovedEvent
+            elif post != pre or len(effs) != 1:
+                return 'a refused removal of pool %d changed the pools or had effects %r' % (pi, effs[1:])
+        if op[0] == 'add' and effs != ['EInapplicable']:
+            self._grow()
+            cls = ev.ProcessGroupAddedEvent
         if op[0] == 'emit':
             cls = getattr(ev, op[1])
+        n = self.n = len(self.cfgs)
+        # ---- routing: offered once to exactly the member pools subscribed to the class or a superclass
+        if cls is not None:
             got = [int(e.split()[1]) for e in effs if e.startswith('EOffered')]
-            want = [pi for pi, c in enumerate(self.cfgs) if any(issubclass(cls, getattr(ev, t)) for t in c[0])]
+            want = [pi for pi, c in enumerate(self.cfgs)
+                    if self.member[pi] and any(issubclass(cls, getattr(ev, t)) for t in c[0])]
             if sorted(got) != want:
-                return 'event of class %s offered to pools %r, subscribed pools are %r' % (op[1], got, want)
+                return 'event of class %s offered to pools %r; the subscribed pools among the process groups are %r' % (
+                    cls.__name__, got, want)
+        elif any(e.startswith('EOffered') for e in effs):
+            got = sorted(set(int(e.split()[1]) for e in effs if e.startswith('EOffered')))
+            bad = [pi for pi in got if not self.member[pi]]
+            if bad:
+                return 'pool %r is no process group any more but was offered an event' % bad
         for e in effs:
             f = e.replace('%Z', '').replace('(', ' ').replace(')', ' ').split()
             if f[0] == 'EOffered':
@@ -134,7 +187,7 @@ class Monitor(object):
         if self.w.discard_log_mismatch:
             return 'number of error-level log lines differs from the number of discarded events plus write errors'
         # ---- FIFO: a dispatch pass sends a prefix of the queue, in queue order
-        if op[0] in ('dispatch', 'transition'):
+        if op[0] in ('dispatch', 'transition') and op[1] < len(pre):
             pi = op[1]
             sent = [int(e.replace('%Z', '').split()[3]) for e in effs if e.startswith('ESent')]
             if list(pre[pi][0][:len(sent)]) != sent:
@@ -157,7 +210,7 @@ class Monitor(object):
                 if op[0] in ('feed', 'finish') and not later and (not post[pi][0] or post[pi][0][0] != vid):
                     return 'event %d rejected by a listener of pool %d is not at the head of its queue' % (vid, pi)
         # ---- bound, no loss, isolation
-        for pi in range(n):
+        for pi in range(len(post)):
             buf, _, ls = post[pi]
             bs = self.cfgs[pi][1]
             if len(buf) > max(1, bs):
@@ -168,8 +221,8 @@ class Monitor(object):
             if lhs != rhs and 'ERaise' not in effs:
                 return ('pool %d: accepted %r but buffered+in-flight+acknowledged+discarded = %r'
                         % (pi, lhs, rhs))
-        if op[0] == 'feed':
-            for pj in range(n):
+        if op[0] == 'feed' and op[1] < len(pre):
+            for pj in range(min(len(pre), len(post))):
                 if pj != op[1] and post[pj] != pre[pj]:
                     return 'listener output in pool %d changed pool %d' % (op[1], pj)
         return None
@@ -179,6 +232,8 @@ def run_history(cfgs, ops, hk, gserial, maxdig):
     """-> (coq case, monitor verdict, trace info)"""
     import c09_drive as drv
     from c10_env import ProcessStates
+    cfgs = list(cfgs)            # grows when a pool is added
+    cfgs0 = list(cfgs)
     w = drv.World(cfgs, hk, gserial)
     mon = Monitor(w, cfgs, check_serials=(gserial == -1 and all(c[3] == -1 for c in cfgs)))
     opterms, exp = [], []
@@ -187,13 +242,13 @@ def run_history(cfgs, ops, hk, gserial, maxdig):
     for k, op in enumerate(ops):
         pre = w.raw()
         pre_state = None
-        if op[0] == 'finish':
+        if op[0] == 'finish' and op[1] < len(w.pools) and op[2] < len(w.pools[op[1]].procs):
             p = w.pools[op[1]].procs[op[2]]
             pre_state = 'stopping' if p.killing else ('starting' if p.state == ProcessStates.STARTING else 'running')
         v0 = w.next_vid
         effs = w.apply(op)
         new = list(range(v0, w.next_vid))
-        opterms.append(op_term(op, new, pre_state))
+        opterms.append(op_term(op, new, pre_state, effs, cfgs))
         exp.append('(%s, %s)' % (w.obs(), coq_list(effs)))
         post = w.raw()
         kinds.append((op[0], tuple(e.split()[0] for e in effs)))
@@ -208,10 +263,9 @@ def run_history(cfgs, ops, hk, gserial, maxdig):
                 pipe = pool.pipe(p)
                 if pipe is not None and pipe.accepted:
                     envs = drv.parse_envelopes(pipe.accepted)
-                    if envs is None or any(e[1] != 'p%d' % pi for e in envs):
+                    if envs is None or any(e[1] != w.names[pi] for e in envs):
                         verdict = {'step': len(ops), 'broken': 'stdin of listener %d/%d does not consist of whole envelopes of its pool' % (pi, i)}
-    cfgterm = coq_list(['(%s, %s, %d%%nat, %s)' % (coq_list(['T_' + n for n in subs]), zlit(bs), nl, zlit(ps))
-                        for subs, bs, nl, ps in [c[:4] for c in cfgs]])
+    cfgterm = coq_list([cfg_term(c) for c in cfgs0])
     case = '(%s, %s, (%s, %s, %s), %s,\n %s,\n %s)' % (
         zlit(hk), zlit(maxdig), cfgterm, zlit(sys.maxsize), zlit(gserial), coq_list(opterms), coq_list(exp), w.table_term())
     return case, verdict, kinds
@@ -311,6 +365,45 @@ def _run(chk, wd, proved):
                 npairs += 1
     chk.dist('pairs', 2 * npairs)
 
+    # ---- process groups: removal attempts on pools that are not stopped (refused: the pool keeps receiving
+    #      every subscribed event), on stopped pools (accepted: nothing more is offered), adding the pool again
+    #      under the same name (a new pool object), events emitted in between - through the real
+    #      Supervisor.remove_process_group / add_process_group
+    def finish_all(pi, nl):
+        return [['finish', pi, i, b'', B] for i in range(nl)]
+    g_cfgs = [
+        [(['ProcessGroupEvent', 'TickEvent'], 2, 2, -1, 999, None), (['Event'], 3, 1, -1, 999, None)],
+        [(['ProcessStateEvent', 'ProcessStateRunningEvent'], 1, 1, -1, 999, 'listener'),
+         (['ProcessGroupRemovedEvent', 'Tick5Event'], 2, 1, -1, 999, 'listener')],
+        [(['Event'], 2, 1, -1, 999, None), (['Event'], 2, 2, -1, 999, None), (['TickEvent'], 1, 1, -1, 999, None)],
+    ]
+    emits = [['emit', 'Tick5Event'], ['emit', 'ProcessStateRunningEvent'], ['emit', 'ProcessGroupAddedEvent']]
+    n_g0 = len(cases)
+    for cfgs in g_cfgs:
+        nl0 = cfgs[0][2]
+        pres = {
+            'never-started': [],
+            'running': ready_setup(cfgs),
+            'busy': ready_setup(cfgs) + [['emit', 'Tick5Event'], ['transition', 0, []]],
+            'stopping': ready_setup(cfgs) + [['stop', 0, 0]],
+            'one-exited': ready_setup(cfgs) + finish_all(0, 1),
+            'all-exited': ready_setup(cfgs) + finish_all(0, nl0),
+            'stopped': ready_setup(cfgs) + [['stop', 0, i] for i in range(nl0)] + finish_all(0, nl0),
+            'exited-holding-events': ready_setup(cfgs) + [['emit', 'Tick5Event'], ['emit', 'Tick5Event'], ['transition', 0, []]]
+                                     + finish_all(0, nl0),
+        }
+        for pname, pre in sorted(pres.items()):
+            for which in (0, 1):
+                ops = pre + emits[:1] + [['remove', which]] + emits + [['transition', 1, []], ['remove', which]] + emits[:2] + \
+                    [['add', which]] + emits + \
+                    [['spawn', len(cfgs), 0, 700], ['running', len(cfgs), 0], ['feed', len(cfgs), 0, b'READY\n'],
+                     ['transition', len(cfgs), []], ['remove', len(cfgs)], ['emit', 'Tick5Event'],
+                     ['finish', len(cfgs), 0, b'', B], ['remove', len(cfgs)], ['emit', 'Tick5Event'], ['add', which],
+                     ['emit', 'Tick5Event']]
+                add(cfgs, ops, tag='groups')
+                chk.dist('groups:' + pname)
+    n_groups = len(cases) - n_g0
+
     # ---- random histories
     def rand_cfgs():
         n = rng.choice([1, 2, 2, 3])
@@ -326,7 +419,19 @@ def _run(chk, wd, proved):
             pi = rng.randrange(len(cfgs))
             i = rng.randrange(cfgs[pi][2])
             r = rng.random()
-            if r < 0.30:
+            if r < 0.06:
+                # process groups: removal (after stopping everything, or as it is) and adding again
+                k = rng.random()
+                if k < 0.4:
+                    ops += [['finish', pi, j, b'', B] for j in range(cfgs[pi][2])]
+                if k < 0.8:
+                    ops.append(['remove', pi])
+                else:
+                    ops.append(['add', pi])
+                    if rng.random() < 0.7:
+                        newpi = len(cfgs) + rng.randrange(2)
+                        ops += [['spawn', newpi, 0, 600 + len(ops)], ['running', newpi, 0], ['feed', newpi, 0, b'READY\n']]
+            elif r < 0.30:
                 ops.append(['emit', rng.choice(EMIT)])
             elif r < 0.55:
                 ops.append(['feed', pi, i, rng.choice([b'READY\n', b'RESULT 2\nOK', b'RESULT 2\nOKREADY\n', b'RESULT 4\nFAIL',
@@ -420,9 +525,9 @@ def _run(chk, wd, proved):
                    'buffer sizes 1-2 and 15%% of 0 and 3; every configuration once with listeners of different pools sharing their '
                    'priority and once sharing their process names), %d random '
                    'histories of 5-21 operations on 1-3 pools (12 subscription lists incl. type+supertype, duplicates, empty; '
-                   'buffer sizes 0-4; 1-3 listeners; equal and different priorities), 40+ histories starting just below maxint; every (type, supertype) pair of the hierarchy configured in both orders; '
+                   'buffer sizes 0-4; 1-3 listeners; equal and different priorities), 40+ histories starting just below maxint; every (type, supertype) pair of the hierarchy configured in both orders; %d process-group histories (removal refused / accepted in 8 pool states, re-adding under the same name) through the real Supervisor.remove_process_group/add_process_group, and such operations in the random stream; '
                    'distinct = distinct (operation kind, effect kinds) combinations observed'
-                   % (len(cases), n_exh, depth, len(alpha), len(grid), nrand))
+                   % (len(cases), n_exh, depth, len(alpha), len(grid), nrand, n_groups))
     cov['samples'] = [meta[0], meta[n_exh + 1] if len(meta) > n_exh + 1 else meta[-1], meta[-1]]
     chk.note('%d histories compared in Coq; build+implementation runs %.0fs, model evaluation %.0fs; %d subtype pairs, '
              '%d event names, %d subscription lists' % (len(cases), t_gen, t_coq, len(sub_cases), len(name_cases), len(dd_cases)))
@@ -455,7 +560,7 @@ def _compare(cases, wd):
 
     def one(args):
         k, (b0, sh) = args
-        b, e = vlib.coq_compare(IMPORTS, CASE_TYPE, 'check_world', sh, wd, shard=len(sh) + 1, tag='w%d' % k)
+        b, e = vlib.coq_compare(IMPORTS, CASE_TYPE, 'check_gworld', sh, wd, shard=len(sh) + 1, tag='w%d' % k)
         return [b0 + x for x in b], e
     bad, errs = [], []
     with ThreadPoolExecutor(max_workers=vlib.NCPU) as ex:
@@ -490,7 +595,7 @@ def replay(chk, path):
         with vlib.WorkDir('c09r') as wd:
             case, verdict, kinds = run_history(cfgs, _unjs(m['ops']), m['handler'], m['gserial'], maxdig)
             print('monitor verdict:', verdict)
-            b, e = vlib.coq_compare(IMPORTS, CASE_TYPE, 'check_world', [case], wd, tag='replay')
+            b, e = vlib.coq_compare(IMPORTS, CASE_TYPE, 'check_gworld', [case], wd, tag='replay')
             print('model agrees' if not b and not e else 'model DISAGREES %r %r' % (b, e))
             if verdict is not None:
                 chk.violation(obj, name='replayed')
